@@ -260,6 +260,61 @@ fn replay(path: &std::path::Path) -> i32 {
     0
 }
 
+/// Where the PHC term comes from is decided in `main()`, before any of the code the sweeps drive: the interface
+/// named on the command line is looked up in /sys, and the attribute found there is what the polling thread reads.
+/// Through the release binary (procmc/e2e.rs), with the stand-in chronyd naming the PHC as its reference:
+/// an interface with a PTP hardware clock (the published bound carries its error bound), and interfaces that have
+/// no device behind them (a bond, `lo`: /sys/devices/virtual/net/<name>) - for these there is no PHC error bound
+/// to add, so nothing Synchronized may be published (the unmodified daemon refuses to start).
+fn end_to_end(ctx: &Ctx, tally: &mut Tally) -> Value {
+    use crate::procmc::e2e::{self, PhcFile, Scenario, ID_PHC, IFACE};
+    let bin = e2e::binary(ctx);
+    if !std::path::Path::new(&bin).exists() {
+        return json!({"skipped": format!("release binary {bin} not built")});
+    }
+    let args = |i: &str| vec!["-r".to_string(), "PHC0".into(), "-i".into(), i.to_string()];
+    let scenarios = vec![
+        Scenario { name: "-r PHC0 -i <interface with a PTP hardware clock, error bound 50000 ns>", args: args(IFACE), chronyd: Some((ID_PHC, 0)), phc: PhcFile::Value(50_000), observe_ms: 2500, wait_for_synchronized: 1, virtual_ifaces: vec!["bond0", "lo"], ..Scenario::blank() },
+        Scenario { name: "-r PHC0 -i bond0 (an interface without a device: /sys/devices/virtual/net/bond0)", args: args("bond0"), chronyd: Some((ID_PHC, 0)), phc: PhcFile::Value(50_000), observe_ms: 2500, virtual_ifaces: vec!["bond0", "lo"], ..Scenario::blank() },
+        Scenario { name: "-r PHC0 -i lo", args: args("lo"), chronyd: Some((ID_PHC, 0)), phc: PhcFile::Value(50_000), observe_ms: 2500, virtual_ifaces: vec!["bond0", "lo"], ..Scenario::blank() },
+        Scenario { name: "-r PHC0 -i nosuchif0 (no such interface)", args: args("nosuchif0"), chronyd: Some((ID_PHC, 0)), phc: PhcFile::Value(50_000), observe_ms: 2500, ..Scenario::blank() },
+    ];
+    let results: Vec<Result<Value, String>> = std::thread::scope(|s| {
+        let hs: Vec<_> = scenarios.iter().map(|sc| { let bin = bin.clone(); s.spawn(move || e2e::run_scenario(&bin, sc)) }).collect();
+        hs.into_iter().map(|h| h.join().unwrap_or_else(|_| Err("scenario thread panicked".into()))).collect()
+    });
+    let base = accepted_bound(&e2e::spec_for(ID_PHC, 0, 0), 0).unwrap();
+    let mut report = vec![];
+    for (i, (sc, r)) in scenarios.iter().zip(results).enumerate() {
+        let v = match r {
+            Ok(v) => v,
+            Err(e) => machinery_failure(&format!("C07 end-to-end scenario '{}': {e}", sc.name)),
+        };
+        if let Some(u) = v["unavailable"].as_str() {
+            return json!({"skipped": format!("the sandbox does not allow it: {u}")});
+        }
+        let doc = json!({"check": "C07", "phase": "end to end through the release binary", "scenario": sc.name, "command_line": sc.args, "observed": v});
+        let pubs = v["publications"].as_array().cloned().unwrap_or_default();
+        let mut synced = 0;
+        for p in pubs.iter().filter(|p| p["status"] == 1) {
+            synced += 1;
+            let b = p["bound_ns"].as_i64().unwrap_or(-1) as i128;
+            if i == 0 {
+                if b < base.0 + 50_000 || b > base.1 + 50_000 {
+                    tally.add("C07:e2e:phc-term", format!("{}: Synchronized record with bound {b} ns; the report's own terms give {}..{} ns and the PHC's error bound is 50000 ns", sc.name, base.0, base.1), doc.clone());
+                }
+            } else {
+                tally.add("C07:e2e:bound-without-the-phc-term", format!("{}: chronyd's reference is the PHC the daemon was told about, the interface has no PHC error bound to read, yet a Synchronized record with bound {b} ns was published (the report's own terms alone give {}..{} ns): the PHC's own error is not in it", sc.name, base.0, base.1), doc.clone());
+            }
+        }
+        if i == 0 && synced == 0 {
+            tally.add("C07:e2e:never-synchronized", format!("{}: no Synchronized record within {} ms (daemon exit status {})", sc.name, sc.observe_ms, v["daemon_exit_status"]), doc.clone());
+        }
+        report.push(json!({"scenario": sc.name, "publications": pubs.len(), "synchronized_publications": synced, "daemon_exit_status": v["daemon_exit_status"]}));
+    }
+    json!({"scenarios": report})
+}
+
 pub fn run(ctx: &Ctx) -> i32 {
     crate::common::report::quiet_panics();
     pipeline::install();
@@ -478,7 +533,9 @@ pub fn run(ctx: &Ctx) -> i32 {
             tally.merge(t);
         }
     }
+    let e2e = end_to_end(ctx, &mut tally);
     let coverage = cov(vec![
+        ("end_to_end_through_the_release_binary", e2e),
         ("evaluations", json!(tally.evaluated)),
         ("distinct_nontrivial", json!(tally.nontrivial)),
         ("rule", json!("cross product of per-field alphabets of chrony 32-bit float encodings (offset both signs; delay, dispersion; PHC bound) plus sweeps of whole field domains; each report is a distinct wire message; non-trivial = judged reports with a non-zero offset. Reports with some |value| >= 2^30 s or a negative delay/dispersion are outside the statement's meaningful range: enumerated, not fed")),
